@@ -438,3 +438,8 @@ LEVEL_NOTE = ("the theorems are about the repaired behaviour (fixes/C18-1..6); o
               "same theorems hold). Interpretation decisions: forbid_node constrains the first node taken by the search; "
               "the given first/second edge must itself be potentially directed; second_node = c means the path [u, c]; "
               "'parent' = PAG.parents (tail at the parent). max_path_length other than None is not modelled.")
+
+
+# tie (T) for the local predicates (translator/predicates.py -> Gen/Gen_Preds.v -> Tie/Preds_Cxx.v): pre_build, extra, replay of cells
+import tie_preds  # noqa: E402
+tie_preds.install(globals(), PROP)
